@@ -352,6 +352,7 @@ class Response(BaseResponse):
             data = data.encode("utf-8")
 
         self.__buffer = IBytesIO(data)
+        self.__buffer.seek(0, 2)    # write() appends to the initial data
         self._content_length = len(data)
 
     @property
